@@ -33,6 +33,9 @@ pub enum Op {
     /// adaptive (expanded by the executor into plain appends): fill the live segment of key k's bucket so
     /// that the free space is `estimate(next single incompressible event of payload len) + delta`, then append it
     FillWindow { k: usize, delta: i64, len: usize },
+    /// scan every partition id (streams=false) or stream id (streams=true) in lo..hi that was never written:
+    /// all of them must be empty (absent keys in sealed indexes: MPHF / bloom lookups)
+    SweepAbsent { lo: u64, hi: u64, streams: bool },
 }
 
 #[derive(Clone, Debug)]
@@ -59,6 +62,7 @@ impl Hist {
                 Op::Reopen => s.push_str("RO"),
                 Op::Crash { keep, extra } => { let _ = write!(s, "CR {keep} {extra}"); }
                 Op::FillWindow { k, delta, len } => { let _ = write!(s, "FW {k} {delta} {len}"); }
+                Op::SweepAbsent { lo, hi, streams } => { let _ = write!(s, "SX {lo} {hi} {}", if *streams { "s" } else { "p" }); }
             }
         }
         s
@@ -108,6 +112,7 @@ impl Hist {
                 "PS" => Op::PSeq { pid: t[1].parse().ok()? },
                 "RO" => Op::Reopen,
                 "CR" => Op::Crash { keep: t[1].parse().ok()?, extra: t[2].parse().ok()? },
+                "SX" => Op::SweepAbsent { lo: t[1].parse().ok()?, hi: t[2].parse().ok()?, streams: t[3] == "s" },
                 "FW" => Op::FillWindow { k: t[1].parse().ok()?, delta: t[2].parse().ok()?, len: t[3].parse().ok()? },
                 _ => return None,
             };
